@@ -1,7 +1,7 @@
 //! K12 (bucket allocation): ProbeSequence::next and allocate_bucket of nomt/src/bitbox/mod.rs.
 #![allow(unused_imports, dead_code)]
 use super::*;
-use crate::bitbox::meta_map::verif_kani::{any_meta_map, byte, N};
+use crate::bitbox::meta_map::verif_kani::{any_meta_map, byte, meta_map_from, N};
 
 fn stub_hash_page_id(_page_id: &PageId, _seed: &[u8; 16]) -> u64 {
     kani::any()
@@ -19,13 +19,8 @@ fn stub_hash_page_id(_page_id: &PageId, _seed: &[u8; 16]) -> u64 {
 fn allocate_bucket_takes_only_free_buckets() {
     let len: usize = kani::any();
     kani::assume(len >= 1 && len <= N);
-    let mut m = any_meta_map(len);
-    let mut before = [0u8; N];
-    let mut i = 0;
-    while i < N {
-        before[i] = byte(&m, i);
-        i += 1;
-    }
+    let before: [u8; N] = kani::any();
+    let mut m = meta_map_from(before, len);
     let seed: [u8; 16] = kani::any();
     let r = allocate_bucket(&nomt_core::page_id::ROOT_PAGE_ID, &mut m, &seed);
     let other: usize = kani::any();
@@ -75,3 +70,4 @@ fn probe_next_classifies() {
 
 #[cfg(test)]
 include!("/verif/.build/playback/bitbox_mod.inc");
+
